@@ -119,6 +119,20 @@ fn main() {
     let mut units: Vec<Unit> = vec![];
     load_units(&args[2], &mut units, &mut vec![]);
     let mut log = Log { entries: vec![] };
+    // R29 helpers are inlined by description; their repository text is pinned by hash
+    for unit in &units {
+        if let Some(tbl) = unit.opts.get("inline_lookup").and_then(|v| v.as_table()) {
+            for (name, spec) in tbl.iter() {
+                let (Some(file), sha) = (spec.get("file").and_then(|v| v.as_str()), spec.get("sha").and_then(|v| v.as_str()).unwrap_or("")) else { continue };
+                let text = std::fs::read_to_string(format!("{repo}/{file}")).unwrap_or_else(|e| fail(&format!("lost anchor: {file}: {e}")));
+                let parsed = syn::parse_file(&text).unwrap_or_else(|e| fail(&format!("cannot parse {file}: {e}")));
+                let f = parsed.items.iter().find_map(|it| match it { Item::Fn(f) if f.sig.ident == name => Some(f.clone()), _ => None }).unwrap_or_else(|| fail(&format!("lost anchor: helper fn {name} not found in {file}")));
+                let h = rules::fnv64(&f.to_token_stream().to_string());
+                let changed = if !sha.is_empty() && sha != format!("{h:016x}") { " CHANGED" } else { "" };
+                log.entries.push(("R29".into(), name.clone(), format!("helper {name} pinned text hash {h:016x}{changed}")));
+            }
+        }
+    }
     let mut out = String::new();
     let mut lifted: Vec<Item> = vec![];
     for unit in &units {
